@@ -86,14 +86,36 @@ def r23b(ctx, P, rts):
                "%s queues through IndexWriter::add_documents only" % path if ok else
                "%s uses IndexWriter::{%s}: per-document adds cannot be undone without dropping other requests' operations" % (path, ", ".join(sorted(used))),
                site.loc())
-    f = P.fn(ADD_DOCS)
+    f = P.inlined(ADD_DOCS)
     if not ctx.anchor(rid, f, "IndexWriter::add_documents"):
         return
     ctx.saw(f)
     sl = Slice(f)
     apps = [Site(f, b) for b, t in f.calls() if callee_of(t) == N.WAL + "::append_add_doc"]
-    checks = [Site(f, b) for b, t in f.calls() if callee_of(t).endswith(("Schema::validate_document", "segment::check_document", "writer::doc_id_from_document"))]
-    ctx.floor(rid, min(len(apps), 1) + len(checks), 4, "append + document checks in add_documents")
+    CHECKS = ("Schema::validate_document", "segment::check_document", "writer::doc_id_from_document")
+    checks = [Site(f, b) for b, t in f.calls() if callee_of(t).endswith(CHECKS)]
+    # a check that is a private helper of the same file is spliced into the analysed view: its entry marks the site
+    checks += [Site(f, b) for b in f.reachable() if (f.blocks[b]["term"].get("inlined_call") or "").endswith(CHECKS)]
+    kinds = {c for c in CHECKS if any((callee_of(t).endswith(c)) for b, t in f.calls()) or
+             any((f.blocks[b]["term"].get("inlined_call") or "").endswith(c) for b in f.reachable())}
+    # checks performed by a closure (iterator style: docs.iter().map(|d| check(d)).collect::<Result<_>>()?): they run where the
+    # iterator is consumed — the last call of this function that receives the chain built around the closure
+    slc = Slice(f, through_all_calls=True)
+    for g in P.closures_of(P.fn(f.path) or f):
+        reach_g = {g.path} | {q for q in P.reach(g.path)}
+        inner = {c for c in CHECKS if any(callee_of(t).endswith(c) for b, t in g.calls()) or any(q.endswith(c) for q in reach_g)}
+        if not inner:
+            continue
+        consumers = []
+        for b, t in f.calls():
+            for a in t["args"]:
+                if any(x[0] == "agg" and x[3].get("closure") == g.path for x in slc.sources(a)):
+                    consumers.append(b)
+        if consumers:
+            last = max(consumers, key=lambda bb: len(f.reachable_from(bb)) * -1)
+            checks.append(Site(f, last))
+            kinds |= inner
+    ctx.floor(rid, min(len(apps), 1) + len(kinds), 4, "append + the three document checks (validate, id extraction, check_document) in add_documents")
     late = [c for c in checks for a in apps if c.b in f.reachable_from(a.b)]
     ctx.ob(rid, "%s:add_documents:checks-before-first-append" % rid, not late and bool(checks),
            "no document check can run after a log append: all documents are checked before the first one is written" if not late and checks else
